@@ -238,6 +238,37 @@ def make_deepchain():
     return {'targets': [link01, link01, link01], 'roots': [link01, link10, link20, chain_end]}
 
 
+def mutual_f(a, *args, **kwargs):
+    return mutual_g(*args, **kwargs)
+
+
+def mutual_g(b, *args, **kwargs):
+    return mutual_f(*args, **kwargs)
+
+
+def make_mutual():
+    # two functions forwarding to each other, each thread asks for one of them
+    return {'targets': [mutual_f, mutual_g, mutual_f], 'roots': [mutual_f, mutual_g]}
+
+
+def make_forger_shared():
+    # one forwards_to_method declaration reached through an instance of the class and one of a subclass overriding the target
+    class Ham(object):
+        def egg(self, a, b):
+            return a
+
+        @specifiers.forwards_to_method('egg')
+        def spam(self, c, *args, **kwargs):
+            return getattr(self, 'e' + 'gg')(*args, **kwargs)
+
+    class Sub(Ham):
+        def egg(self, x, y, z):
+            return x
+    ham, sub = Ham(), Sub()
+    return {'targets': [lambda: ham.spam, lambda: sub.spam, lambda: Ham.spam], 'roots': [ham, sub, Ham, Sub, Ham.__dict__['spam']],
+            'lazy': True}
+
+
 def cf_callee(a, b, *, c=None):
     return a
 
@@ -281,6 +312,8 @@ SCENARIOS = {
     'pok': ('sigtools', 'sigtools', 'inspect'),
     'pok2': ('sigtools', 'sigtools', 'inspect'),
     'decorator': ('sigtools', 'inspect', 'sigtools'),
+    'mutual': ('sigtools', 'sigtools', 'sigtools'),
+    'forger_shared': ('sigtools', 'sigtools', 'sigtools'),
     'deepchain': ('sigtools', 'sigtools', 'sigtools'),
     'cachefill': ('sigtools', 'sigtools', 'sigtools'),
 }
@@ -475,11 +508,11 @@ def plan(tier):
     if tier == 'quick':
         for scen in SCENARIOS:
             # 'decorator' has twice the critical points of any other scenario: its two-pre-emption run is the thorough tier's
-            runs.append((scen, 2, 'critical', 1 if scen == 'decorator' else 2))
+            runs.append((scen, 2, 'critical', 1 if scen in ('decorator', 'mutual', 'forger_shared') else 2))
             runs.append((scen, 2, 'shared', 1))
-        for scen in ('wraps', 'forged2', 'pok'):
+        for scen in ('wraps', 'forged2', 'pok', 'mutual', 'forger_shared'):
             runs.append((scen, 2, 'all', 1))          # reduction validation; 'pok': the walk over a shared parsed source
-            if scen != 'pok':
+            if scen in ('wraps', 'forged2'):
                 runs.append((scen, 3, 'critical', 1))
         runs = [r for r in runs if r[0] not in ('deepchain', 'cachefill')]
         runs.append(('deepchain', 2, 'critical', 1))
